@@ -52,7 +52,21 @@ Theorem C15_optional_only_ype :
     clean_or_mut (snd (get_optional lit re_search nstr vstr kw_handler creator p d)).
 Proof. exact (optional_only_ype lit re_search nstr vstr kw_handler creator lit_total re_total kw_ok creator_ok). Qed.
 
+(* The node-creating branches (the parameter [creator]) are reached only with a tail that can be built: since fix
+   45f1b07 (Nodes.require_buildable_path) a missing ANCHOR / INDEX / KEY element whose path goes on with anything
+   but Hash keys and non-negative Array indexes -- counted from the segment itself when the data is a null, which
+   is replaced by a new container -- is a YAMLPathException raised BEFORE anything is built, whatever the creator
+   would do.  (Before the repair Nodes.build_next_node handed back the default value for such a segment: it was
+   stored at the first missing element and the rest of the path evaluated inside it -- findings F-C11-5.) *)
+Theorem C15_unbuildable_tail_refused :
+  forall (segs : list pseg) (i : nat) (ps : pseg) (v : rval) (c : ctx),
+    is_ty TAnchor (fst (seg_us ps)) || is_ty TIndex (fst (seg_us ps)) || is_ty TKey (fst (seg_us ps)) = true ->
+    buildable_tail segs (match v with RNode (NLeaf _ PNone) => i | _ => S i end) = false ->
+    missing_element creator segs i ps v c = gerr (YPE Generic).
+Proof. exact (missing_element_unbuildable creator). Qed.
+
 End Statements.
+Print Assumptions C15_unbuildable_tail_refused.
 Print Assumptions C15_required_only_ype.
 Print Assumptions C15_exists_only_ype.
 Print Assumptions C15_optional_only_ype.
@@ -72,18 +86,19 @@ Hypothesis re_total : forall p s, exists r, re_search p s = Ok r.
 
 (* Every keyword handler -- has_child (incl. &anchor), name, max, min, parent,
    unique, distinct, inverted or not -- on ANY data (document nodes, lists built
-   by the evaluator, null, unhashable members), any context and any parameter
-   text SearchKeywordTerms.parameters can split: the stream ends normally or
-   with a YAMLPathException and yields NodeCoords. *)
+   by the evaluator, null, unhashable members), any context and ANY parameter
+   text (one SearchKeywordTerms.parameters cannot split is a YAMLPathException
+   since the repair of finding F31): the stream ends normally or with a
+   YAMLPathException and yields NodeCoords. *)
 Theorem C15_kw_handler_clean :
   forall (inv : bool) (kw : keyword) (params : string) (v : rval) (c : ctx),
-    kw_params_ok params = true ->
     clean_stop (snd (ek_kw_handler lit re_search nstr vstr inv kw params v c))
     /\ Forall (fun x => is_coords x = true) (fst (ek_kw_handler lit re_search nstr vstr inv kw params v c)).
 Proof. exact (kw_handler_clean lit re_search nstr vstr lit_total). Qed.
 
 (* C15 for the collector-free fragment INCLUDING keyword segments at any
-   position (in_fragment_kw = in_fragment + the parameter texts split) *)
+   position, evaluated by the JOINED evaluator (in_fragment_kw = in_fragment,
+   C15_kw_fragment_is_fragment: nothing is asked of the parameter texts) *)
 Theorem C15_required_only_ype_kw :
   forall (p : ppath) (d : node),
     in_fragment_kw p = true ->
@@ -140,7 +155,7 @@ Proof. exact (frag_kw_kc lit re_search nstr vstr). Qed.
    accepted text consists of typed segments whose COLLECTOR / KEYWORD_SEARCH /
    SEARCH types carry their terms).  What remains is [collector_free_kw]
    (Spec/C15Shape.v): no COLLECTOR-typed segment, every sub-path parsed or
-   failed with a YAMLPathException, every keyword parameter text splits. *)
+   failed with a YAMLPathException. *)
 Theorem C15_required_only_ype_text :
   forall (fuel : nat) (text : string) (p : ppath) (d : node),
     prepare fuel text = Ok p -> collector_free_kw p = true ->
@@ -171,6 +186,16 @@ Theorem C15_prepared_in_fragment_kw :
   forall (fuel : nat) (text : string) (p : ppath),
     prepare fuel text = Ok p -> collector_free_kw p = true -> in_fragment_kw p = true.
 Proof. exact prepared_in_fragment_kw. Qed.
+
+(* the keyword fragment asks nothing beyond the fragment (it used to ask that
+   every keyword parameter text splits: finding F31, repaired) *)
+Theorem C15_kw_fragment_is_fragment : forall p : ppath, in_fragment_kw p = in_fragment p.
+Proof. exact in_fragment_kw_eq. Qed.
+
+Theorem C15_collector_free_kw_is_collector_free : forall p : ppath, collector_free_kw p = collector_free p.
+Proof. exact collector_free_kw_eq. Qed.
+Print Assumptions C15_kw_fragment_is_fragment.
+Print Assumptions C15_collector_free_kw_is_collector_free.
 Print Assumptions C15_prepared_in_fragment.
 Print Assumptions C15_prepared_in_fragment_kw.
 Print Assumptions C15_required_only_ype_text.
@@ -248,6 +273,26 @@ Proof.
   intros text H; repeat (destruct H as [<-|H]; [vm_compute; repeat split; reflexivity|]); destruct H.
 Qed.
 
+(* Finding F-C11-5 (C11 / C09), repaired (fix 45f1b07): over {a: 1, b: 2} the optional query of a path whose key x
+   is missing and which goes on with a wildcard, a traversal, a search, a keyword search, a slice, an anchor, a
+   collector or a negative index ends in a YAML Path error and never reaches the creator (it used to: x was given
+   the default value and the rest of the path was evaluated inside that value); a.x.* likewise one level down;
+   x.y and x[1] are still built (the creator's mutation), and b.* over the existing scalar b selects nothing *)
+Definition cr_mut (_ : list pseg) (_ : nat) (_ : rval) (_ : ctx) : gen rval := ([], Mut 0%N PNone).
+Definition run_opt (text : string) (d : node) : outcome stop :=
+  do p <- prepare (S (S (String.length text))) text;
+  Ok (snd (get_optional lit0 re0 nstr0 vstr0 kw0 cr_mut p d)).
+
+Example C15_unbuildable_tail_examples :
+  (forall text, In text ["x.*"; "x.**"; "x[.=1]"; "x[max()]"; "x[0:2]"; "x[&q]"; "x(a)+(b)"; "x[-1]"; "x.y[0].*"; "/x/y/*"] ->
+     run_opt text doc_ab = Ok (Err (YPE Generic))) /\
+  run_opt "x.y" doc_ab = Ok (Mut 0%N PNone) /\ run_opt "x[1]" doc_ab = Ok (Mut 0%N PNone) /\
+  run_opt "b.*" doc_ab = Ok Done.
+Proof.
+  split; [|vm_compute; repeat split; reflexivity].
+  intros text H; repeat (destruct H as [<-|H]; [vm_compute; reflexivity|]); destruct H.
+Qed.
+
 (* Non-vacuity: the fragment contains non-trivial parsed paths, and they select nodes. *)
 Example C15_fragment_example :
   match prepare 20 "a[.>0]" with Ok p => in_fragment p | _ => false end = true.
@@ -318,30 +363,37 @@ Proof. vm_compute. reflexivity. Qed.
 Example C15_kw_wildcard_parent : run_req_kw "z.*[parent()]" doc_z = Ok ([2%N; 2%N; 2%N], Done).
 Proof. vm_compute. reflexivity. Qed.
 
-(* non-vacuity of the text-level statements; and the one demand about keyword
-   parameters that is NOT a parser guarantee: an escaped quote reaches
-   SearchKeywordTerms.parameters unbalanced (finding F31) *)
+(* non-vacuity of the text-level statements *)
 Example C15_text_example :
   match prepare 40 "/**[has_child(a)][parent(2)].b[c=~/d/]" with Ok p => collector_free_kw p | _ => false end = true.
 Proof. vm_compute. reflexivity. Qed.
 
-(* Finding F31 (known, new in round parserfix): the keyword fragment's demand
-   [kw_params_ok] is needed -- the parser accepts "[max(\')]", the escaped
-   parse stores the parameter text "'" (the back-slash is stripped), and
-   SearchKeywordTerms.parameters raises ValueError on it when the segment is
-   evaluated.  The path is inside [in_fragment] (types and attributes agree)
-   and outside [in_fragment_kw]. *)
-Theorem C15_kw_params_refuted :
-  match prepare 12 "[max(\')]" with
-  | Ok p => in_fragment p = true /\ in_fragment_kw p = false /\ collector_free p = true /\
-            snd (ek_required lit0 re0 nstr0 vstr0 p doc_ab) = Err (PyCrash ValueError)
-  | _ => False
-  end.
-Proof. vm_compute. repeat split; reflexivity. Qed.
+(* Finding F31, repaired (fix b201f36 in KeywordSearches.search_matches): the
+   parser accepts "[max(\')]", the escaped parse stores the parameter text "'"
+   (the back-slash is stripped) and SearchKeywordTerms.parameters raises
+   ValueError on it when the segment is evaluated (the former
+   C15_kw_params_refuted; C14_keyword_parameters_total still says so of the
+   accessor).  search_matches now turns that ValueError into a
+   YAMLPathException: the path is inside the fragment, and the required, the
+   optional and the exists() query end with a YAML Path error. *)
+Example C15_kw_params_refused :
+  forall text, In text ["[max(\')]"; "[has_child(\"")]"; "a[!min(b\')]"; "[unique(\'a)][max(b)]"] ->
+    match prepare 20 text with
+    | Ok p => in_fragment_kw p = true /\ collector_free_kw p = true /\
+              snd (ek_required lit0 re0 nstr0 vstr0 p doc_ab) = Err (YPE Generic) /\
+              snd (ek_optional lit0 re0 nstr0 vstr0 p doc_ab) = Err (YPE Generic) /\
+              snd (ek_exists lit0 re0 nstr0 vstr0 p doc_ab) = Err (YPE Generic)
+    | _ => False
+    end.
+Proof.
+  intros text H; repeat (destruct H as [<-|H]; [vm_compute; repeat split; reflexivity|]); destruct H.
+Qed.
 
+(* ... although the parameter text itself still does not split: that is not a parser guarantee *)
 Example C15_kw_params_not_a_parser_guarantee :
-  parse Auto true "[max(\')]" = Ok [(Some TKeywordSearch, AKeyword false KMax "'")] /\ kw_params_ok "'" = false.
-Proof. vm_compute. split; reflexivity. Qed.
+  parse Auto true "[max(\')]" = Ok [(Some TKeywordSearch, AKeyword false KMax "'")] /\ kw_params_ok "'" = false /\
+  keyword_parameters "'" = Raise (PyCrash ValueError).
+Proof. vm_compute. repeat split; reflexivity. Qed.
 
 Example C15_kw_params_hyp : kw_params_ok "a, 'b c'" = true /\ kw_params_ok "'a" = false.
 Proof. vm_compute. split; reflexivity. Qed.
